@@ -768,6 +768,51 @@ theorem createS_exact (dtype : Option DType) (shape : Option (List Nat)) (d0 : A
   simp only [npAscontiguousarray, hsh, Bool.not_true, Bool.false_eq_true, if_false, htxt]
   exact h5SetItem_accepts _ B fullSlice _ ⟨d0.dt, contiguous d0.a⟩ fullSlice_plain hk hB
 
+/-- data of an accepted kind, appended along a valid axis: no exception, and the result is what `append` of the
+converted data gives in the model of `C01_append_concat` -/
+theorem appendS_accepts (A : DArr) (d : Arr) (axis : Int) (hk : convRefusal d.dt A.dtype = none)
+    (h : AppendOk A.arr.shape (contiguous d.a).shape axis) :
+    ∃ B, appendS A d axis = (B, none) ∧ append A (convArr A.dtype d.a) axis = .ok B := by
+  obtain ⟨hl, h0, hlt, hrest⟩ := h
+  have hm := (shapeMismatch_false_iff axis _ _ hl).mpr hrest
+  obtain ⟨A1, hA1, hcase⟩ := appendS_pass A d axis hl ⟨h0, hlt⟩ hm
+  have hdt : A1.dtype = A.dtype := (setExtent_meta hA1).1
+  -- the model's append of the converted data succeeds …
+  have hok : AppendOk A.arr.shape (contiguous (convArr A.dtype d.a)).shape axis := by
+    rw [contiguous_convArr]; exact ⟨hl, h0, hlt, hrest⟩
+  obtain ⟨k, rfl⟩ : ∃ k : Nat, axis = (k : Int) := ⟨axis.toNat, by omega⟩
+  have hk' : k < A.arr.shape.length := by omega
+  have happ := append_ok A (convArr A.dtype d.a) k (by rw [contiguous_convArr]; exact hl) hk'
+    (by rw [contiguous_convArr]; exact hm)
+  -- … and is, after the resize, the assignment the typed write performs
+  have hsh : (convArr A.dtype (contiguous d.a)).shape = (contiguous d.a).shape := rfl
+  have hunf : append A (convArr A.dtype d.a) (k : Int) =
+      assign A1 (appendSlices (appendOffset (k : Int) A.arr.shape) (contiguous d.a).shape)
+        (convArr A.dtype (contiguous d.a)) := by
+    unfold append
+    dsimp only
+    rw [contiguous_convArr, hsh, if_neg (fun hne => hne hl), if_neg (fun hn => hn ⟨h0, hlt⟩),
+      if_neg (by simp [hm])]
+    simp only [hA1]
+  obtain ⟨Y, hY⟩ : ∃ Y, append A (convArr A.dtype d.a) (k : Int) = .ok Y := ⟨_, happ⟩
+  have hass := hY
+  rw [hunf] at hass
+  have hw : writeData A1 ⟨d.dt, contiguous d.a⟩ (.tuple ((appendSlices (appendOffset (k : Int) A.arr.shape)
+      (contiguous d.a).shape).map .ix)) = .ok Y :=
+    h5SetItem_accepts A1 Y (.tuple ((appendSlices (appendOffset (k : Int) A.arr.shape)
+      (contiguous d.a).shape).map .ix)) _ ⟨d.dt, contiguous d.a⟩ (plainItems_map _) (by rw [hdt]; exact hk)
+      (by rw [hdt]; exact hass)
+  rcases hcase with ⟨B, hwB, hB⟩ | ⟨e, A2, _, hB⟩
+  · rw [hw] at hwB
+    cases hwB
+    exact ⟨Y, hB, hY⟩
+  · exfalso
+    unfold appendS at hB
+    dsimp only at hB
+    rw [if_neg (fun hne => hne hl), if_neg (fun hn => hn ⟨h0, hlt⟩), if_neg (by simp [hm])] at hB
+    simp only [hA1, hw] at hB
+    cases hB
+
 /-! ### the read rule -/
 
 theorem selectAxis_err {n : Nat} {ix : Ix} {e : Err} (h : selectAxis n ix = .error e) :
